@@ -203,6 +203,14 @@ def add_default_tweaks(items):
         GEO_TWEAKS.append(('# explicit defaults, one moved', vals2))
 
 
+def add_profile_tweaks(profile_dir):
+    """requests that name a user-provided temperature profile by absolute path (reservoir model 5)"""
+    if any(t[0] == 'Reservoir Model' and 'Reservoir Output File Name' in t[1][0] for t in GEO_TWEAKS):
+        return
+    GEO_TWEAKS.append(('Reservoir Model', [f'5\nReservoir Output File Name, {os.path.join(profile_dir, n)}'
+                                           for n in ('restart_twice.txt', 'constant_first_column.txt', 'same_rows_repeated.txt')]))
+
+
 FACTORS = ['0.9', '1.1', '0.5', '2', 'min', 'max', '1.0123457']
 
 
@@ -293,6 +301,9 @@ GEO_TWEAKS = [
     ('Production Well Diameter', ['0.2 m', '20 cm']),
     ('Maximum Temperature', ['752 degF']),
     ('Production Flow Rate per Well', ['50 kg/sec\nReservoir Depth, 3.2 km']),
+    # round, very large values: a writer that switches notation when a number outgrows its column prints them as '1e+10'
+    ('Reservoir Volume Option', ['4\nReservoir Volume, 1e10', '4\nReservoir Volume, 3e11', '4\nReservoir Volume, 1e12',
+                                 '4\nReservoir Volume, 2e10\nReservoir Heat Capacity, 1000']),
     # an overpressured reservoir: one more section and one more table in the report
     ('Overpressure Percentage', ['155.0\nOverpressure Depletion Rate, 10.0\nInjection Reservoir Temperature, 101.1\nInjection Reservoir Depth, 1001.1\n'
                                  'Injection Reservoir Inflation Rate, 202.2',
